@@ -79,6 +79,7 @@ class Harness:
         self.assumes = []
         self.expect = "pass"      # pass | witness (a reachability twin that must FAIL)
         self.cbmc_args = []       # extra CBMC options (`// @cbmc --max-field-sensitivity-array-size 512`)
+        self.alloc_limit = None   # `// @alloclimit N`: every single allocation request must be <= N bytes
         self.functions = []
 
     def to_json(self):
@@ -124,6 +125,8 @@ def parse_harnesses():
                 h.assumes = pending.get("assume", [])
                 h.expect = pending.get("expect", "pass")
                 h.cbmc_args = pending.get("cbmc", "").split()
+                if "alloclimit" in pending:
+                    h.alloc_limit = int(pending["alloclimit"], 0)
                 if "unwindset" in pending:
                     for item in pending["unwindset"].split(","):
                         item = item.strip()
@@ -210,10 +213,36 @@ def limit_mem(gb):
     return f
 
 
+ALLOC_LIMIT_MSG = "VERIF-ALLOC-LIMIT: a single buffer larger than the harness's bound was requested from the allocator"
+
+
+def kani_lib_for(h, workdir):
+    """Kani's C model of the Rust allocator entry points (kani_lib.c). With `// @alloclimit N` the runner
+    links a copy in which __rust_alloc, __rust_alloc_zeroed and __rust_realloc assert that the requested
+    size is at most N bytes: an allocation monitor at the level of the allocator model, so that every
+    allocation site of the code under test is seen (not only instrumented ones)."""
+    if h.alloc_limit is None:
+        return KANI_LIB_C
+    src = open(KANI_LIB_C).read()
+    n = 0
+    for fn, var in (("__rust_alloc(size_t size, size_t align)", "size"),
+                    ("__rust_alloc_zeroed(size_t size, size_t align)", "size"),
+                    ("__rust_realloc(uint8_t *ptr, size_t old_size, size_t align, size_t new_size)", "new_size")):
+        pat = fn + "\n{\n"
+        if pat in src:
+            src = src.replace(pat, pat + f'    __CPROVER_assert({var} <= (size_t){h.alloc_limit}ul, "{ALLOC_LIMIT_MSG}");\n', 1)
+            n += 1
+    if n != 3:
+        raise RuntimeError("kani_lib.c does not have the expected allocator entry points")
+    path = os.path.join(workdir, h.name + ".kani_lib.c")
+    open(path, "w").write(src)
+    return path
+
+
 def prepare_goto(h, info, workdir):
     out = os.path.join(workdir, h.name + ".goto")
     steps = [
-        ["goto-cc", info["symtab"], KANI_LIB_C, "-o", out],
+        ["goto-cc", info["symtab"], kani_lib_for(h, workdir), "-o", out],
         ["goto-cc", out, "--function", info["mangled"], "-o", out],
         ["goto-instrument", "--add-library", "--no-malloc-may-fail", out, out],
         ["goto-instrument", "--generate-function-body-options", "assert-false-assume-false",
@@ -752,6 +781,8 @@ def main():
     ap.add_argument("--timeout-cap", type=int, default=int(os.environ.get("VERIF_TIMEOUT_CAP", "0")),
                     help="trial runs: cap every harness's solver timeout (seconds); 0 = use the declared ones")
     ap.add_argument("--tier-only", action="store_true", help="with --tier thorough: only the thorough-tier harnesses")
+    ap.add_argument("--admit-scale", type=float, default=float(os.environ.get("VERIF_ADMIT_SCALE", "0.7")),
+                    help="admission weight = declared memory cap x this factor, against a 52 GB budget")
     args = ap.parse_args()
     seed = int(os.environ.get("VERIF_SEED", "0"))
     t_start = time.time()
@@ -794,7 +825,7 @@ def main():
     # heavy harnesses first
     order = sorted(hs, key=lambda h: -h.timeout)
     results = {}
-    mem_budget = 52.0
+    mem_budget = float(os.environ.get("VERIF_MEM_BUDGET", "52"))  # GB, shared by this runner's concurrent solvers
     # simple admission control on declared memory caps
     pending = list(order)
     running = {}
@@ -802,14 +833,14 @@ def main():
         while pending or running:
             # admission by half the declared cap: caps are hard limits (RLIMIT_AS), typical peaks are
             # far below them (evidence records peak_rss_mb per harness)
-            used = sum(h.mem_gb * 0.7 for h in running.values())
+            used = sum(h.mem_gb * args.admit_scale for h in running.values())
             started = False
             for h in list(pending):
-                if len(running) < args.jobs and (used + h.mem_gb * 0.7 <= mem_budget or not running):
+                if len(running) < args.jobs and (used + h.mem_gb * args.admit_scale <= mem_budget or not running):
                     fut = ex.submit(run_cbmc, h, info[h.name], workdir)
                     running[fut] = h
                     pending.remove(h)
-                    used += h.mem_gb * 0.7
+                    used += h.mem_gb * args.admit_scale
                     started = True
             if not running:
                 continue
